@@ -5,7 +5,7 @@
    family (that contract is property C02's subject). *)
 From Coq Require Import List ZArith NArith Bool Arith Lia.
 From EasyML Require Import Base.Sx Model.Shape Model.Tensor Model.TSource Model.ShapeIter
-  Model.Transform Proofs.ShapeP Proofs.C01P Proofs.OdometerP Proofs.C09P.
+  Model.Transform Proofs.ShapeP Proofs.C01P Proofs.OdometerP Proofs.C09P Proofs.C13P.
 Import ListNotations.
 Open Scope N_scope.
 
